@@ -6,6 +6,7 @@ twice and a permutation `perm`, the dense embedding of the raw storage `L/U/D` w
 `(P A Pᵀ)(a,b) = A(perm a, perm b)`.
 -/
 namespace Amgcl
+open Arr2
 namespace Skyline
 open Finset
 
